@@ -77,7 +77,7 @@ def run_case(ctx, case):
                 ctx.count('engine_error_records_checked', 1)
                 if res.reason() == rig.GENERAL_FAILURE:
                     exc = ctx.cap.last_exc or ('unknown', '', 'unknown')
-                    key = '%s|%s|%s' % (opname, exc[0], exc[2])
+                    key = '%s|%s|%s|%s' % (opname, exc[0], exc[2], logwatch.exception_digest(exc[0], exc[1]))
                     ctx.violation(key, 'well-formed %s request answered GENERAL_FAILURE (%s: %s in %s)'
                                   % (opname, exc[0], exc[1], exc[2]),
                                   {'version': version, 'request': data.hex(), 'ident': ident,
